@@ -47,6 +47,7 @@ type Hist struct {
 	desc      string
 	tw        *Twin
 	twinT     int
+	realCtor  bool  // build the controller through the real NewController (slower: informer caches must sync)
 	buildErr  error // set by the provider builder when it fails (the only legitimate generic error RunOnce may return)
 }
 
@@ -152,12 +153,17 @@ func (h *Hist) initController() bool {
 	var ctl *controller.Controller
 	outcome := protect(func() error {
 		var err error
-		ctl, err = controller.VerifNewController(controller.Opts{
+		opts := controller.Opts{
 			K8SClient:            h.k8s,
 			NodeGroups:           h.cfgs,
 			CloudProviderBuilder: simBuilder{h},
 			DryMode:              h.globalDry,
-		}, h.podL, h.nodeL)
+		}
+		if h.realCtor {
+			ctl, err = controller.VerifNewControllerReal(opts, h.podL, h.nodeL)
+		} else {
+			ctl, err = controller.VerifNewController(opts, h.podL, h.nodeL)
+		}
 		return err
 	})
 	ok := outcome == "ok"
